@@ -18,7 +18,7 @@ def _pl_form(rng, exp):
 
 
 def _reach_funcs(names):
-    from torrentfile import hasher, torrent, utils
+    hasher, torrent, utils = drive.mod("hasher"), drive.mod("torrent"), drive.mod("utils")
     table = {
         "Hasher._handle_partial": hasher.Hasher._handle_partial,
         "Hasher.next_file": hasher.Hasher.next_file,
@@ -306,6 +306,145 @@ class C15:
                 "sample": {"files": [[f[0], f[1]] for f in tree["files"][:10]], "piece_length": pl,
                            "route": case["route"], "pad_entries_checked": counters.get("pad_entries_checked", 0),
                            "violations": len(viol)}}
+
+    @staticmethod
+    def classify(case, v):
+        return None
+
+
+# ---------------------------------------------------------------------- C10
+def mask_creation_date(raw):
+    from ..ref import bencode as rb
+    top, _ = rb.decode(raw)
+    node = top.get(b"creation date")
+    if node is None:
+        return raw
+    return raw[:node.start] + b"i0e" + raw[node.end:]
+
+
+class C10:
+    id = "C10"
+    quick, thorough = 600, 9000
+    timeout = 120
+    rule = ("case = either one file x piece length fed to HasherV2, HasherHybrid, FileHasher(hybrid=False), "
+            "FileHasher(hybrid=True) (compare root, piece_layer, pieces, padding_file pairwise), or one tree + "
+            "options fed to the paired creators (TorrentAssembler('2') vs TorrentFileV2, TorrentAssembler('3') vs "
+            "TorrentFileHybrid; written files compared with creation date masked); non-trivial when a file "
+            "exercises a BEP 52 padding rule, is empty or exactly one piece; distinct by (kind, pair, size "
+            "classes, pl exponent, progress)")
+    required = ("hasher_tuples_compared", "creator_pairs_v2", "creator_pairs_hybrid", "pieces_lists_compared")
+    assumptions = ("agreement only; C02/C03 tie one member of each pair to the specification",)
+
+    @staticmethod
+    def gen(rng, tier, i):
+        exp = gen.pick_pl_exp(rng, tier)
+        pl = 2 ** exp
+        if rng.random() < 0.55:
+            return {"kind": "hashers", "pl_exp": exp, "size": gen.pick_size(rng, pl) or rng.choice([1, pl, pl + 1]),
+                    "cseed": rng.randrange(1 << 30), "progress": rng.choice([0, 1, 2]),
+                    "pad": rng.random() < 0.8}
+        c = _gen_common(rng, tier, ["v2pair", "hybridpair"])
+        c["kind"] = "creators"
+        c["opts"] = {}
+        if rng.random() < 0.5:
+            c["opts"]["announce"] = gen.pick_urls(rng)
+        if rng.random() < 0.3:
+            c["opts"]["url_list"] = gen.pick_urls(rng)
+        if rng.random() < 0.3:
+            c["opts"]["private"] = True
+        if rng.random() < 0.3:
+            c["opts"]["comment"] = "a comment"
+        if rng.random() < 0.3:
+            c["opts"]["source"] = "SRC"
+        return c
+
+    @staticmethod
+    def run(case, scratch):
+        hasher = drive.mod("hasher")
+        from torrentfile.mixins import ProgMixin, ProgressBar
+        counters, viol = {}, []
+        pl = 2 ** case["pl_exp"]
+        if case["kind"] == "hashers":
+            path = os.path.join(scratch, "in", "f.bin")
+            from ..harness import materialise_single
+            materialise_single(path, case["size"], case["cseed"])
+            reach = env.Reach()
+            reach.start(_reach_funcs(["HasherV2.process_file", "HasherV2._calculate_root",
+                                      "HasherHybrid.process_file", "HasherHybrid._pad_remaining",
+                                      "HasherHybrid._calculate_root", "FileHasher.__next__",
+                                      "FileHasher._pad_remaining", "FileHasher._calculate_root"]))
+
+            def kw():
+                p = case["progress"]
+                if p == 0:
+                    return {"progress": 0, "progress_bar": ProgMixin.NoProg()}
+                if p == 2:
+                    return {"progress": 2, "progress_bar": ProgressBar.new(case["size"], path)}
+                return {"progress": 1}
+            res = {}
+            try:
+                h2 = hasher.HasherV2(path, pl, **kw())
+                res["HasherV2"] = (h2.root, h2.piece_layer, None, None)
+                pad = case.get("pad", True)
+                hk = {} if pad else {"pad": False}
+                hh = hasher.HasherHybrid(path, pl, **kw(), **hk)
+                res["HasherHybrid"] = (hh.root, hh.piece_layer, list(hh.pieces), hh.padding_file)
+                f0 = hasher.FileHasher(path, pl, hybrid=False, **kw())
+                items0 = list(f0)
+                res["FileHasher"] = (f0.root, f0.piece_layer, None, None)
+                f1 = hasher.FileHasher(path, pl, hybrid=True, **kw(), **hk)
+                items1 = list(f1)
+                res["FileHasher(hybrid)"] = (f1.root, f1.piece_layer, list(f1.pieces), f1.padding_file)
+                if b"".join(bytes(x) for x in items0) != bytes(f0.piece_layer or b""):
+                    viol.append(oracles.V("filehasher-yield-vs-layer"))
+                if [bytes(a) for a, _ in items1] != [bytes(x) for x in items0] or \
+                        [bytes(b) for _, b in items1] != [bytes(x) for x in f1.pieces]:
+                    viol.append(oracles.V("filehasher-hybrid-yield-mismatch"))
+            except BaseException as exc:  # noqa
+                import traceback
+                viol.append(oracles.V("hasher-raised", exc=type(exc).__name__, tb=traceback.format_exc()[-1200:]))
+            names = list(res)
+            for i in range(len(names)):
+                for j in range(i + 1, len(names)):
+                    a, b = res[names[i]], res[names[j]]
+                    if bytes(a[0] or b"") != bytes(b[0] or b""):
+                        viol.append(oracles.V("root-disagree", a=names[i], b=names[j], size=case["size"], pl=pl))
+                    if bytes(a[1] or b"") != bytes(b[1] or b""):
+                        viol.append(oracles.V("layer-disagree", a=names[i], b=names[j], size=case["size"], pl=pl))
+                    if a[2] is not None and b[2] is not None:
+                        counters["pieces_lists_compared"] = counters.get("pieces_lists_compared", 0) + 1
+                        if [bytes(x) for x in a[2]] != [bytes(x) for x in b[2]]:
+                            viol.append(oracles.V("pieces-disagree", a=names[i], b=names[j], size=case["size"], pl=pl))
+                        if a[3] != b[3]:
+                            viol.append(oracles.V("padding-disagree", a=names[i], b=names[j], pa=a[3], pb=b[3]))
+            counters["hasher_tuples_compared"] = 1 if len(res) == 4 else 0
+            cls = _v2_file_class(case["size"], pl)
+            return {"violations": viol, "sig": ["hashers", cls, case["pl_exp"], case["progress"], case.get("pad", True)],
+                    "nontrivial": cls != "bpow2/ppow2/full/", "counters": counters, "reach": reach.collect(),
+                    "sample": {"kind": "hashers", "size": case["size"], "piece_length": pl,
+                               "compared": names, "root": res.get("HasherV2", (b"",))[0],
+                               "padding_file": res.get("HasherHybrid", (0, 0, 0, None))[3], "violations": len(viol)}}
+        pair = {"v2pair": ("Assembler2", "TorrentFileV2"), "hybridpair": ("Assembler3", "TorrentFileHybrid")}[case["route"]]
+        root, out, reach = _setup(case, scratch, ["TorrentAssembler._traverse", "TorrentFileV2._traverse",
+                                                  "TorrentFileHybrid._traverse"])
+        raws = []
+        for r in pair:
+            oc = drive.create(r, root, os.path.join(out, r + ".torrent"), piece_length=case["pl"],
+                              progress=case["progress"], **case["opts"])
+            if not oc.ok:
+                viol.append(oracles.V("create-raised", route=r, exc=oc.excname(), tb=oc.tb[-1200:]))
+            else:
+                raws.append(mask_creation_date(oc.raw))
+        if len(raws) == 2:
+            counters["creator_pairs_v2" if case["route"] == "v2pair" else "creator_pairs_hybrid"] = 1
+            if raws[0] != raws[1]:
+                viol.append(oracles.V("creator-pair-differs", pair=pair, len_a=len(raws[0]), len_b=len(raws[1])))
+        classes = sorted({_v2_file_class(f[1], pl) for f in case["tree"]["files"]})
+        return {"violations": viol, "sig": ["creators", case["route"], classes, case["pl_exp"], sorted(case["opts"])],
+                "nontrivial": any(c != "bpow2/ppow2/full/" for c in classes), "counters": counters,
+                "reach": reach.collect(),
+                "sample": {"kind": "creators", "pair": pair, "files": [[f[0], f[1]] for f in case["tree"]["files"][:8]],
+                           "piece_length": pl, "options": case["opts"], "identical": not viol}}
 
     @staticmethod
     def classify(case, v):
